@@ -196,6 +196,17 @@ type C02State struct {
 
 func CheckC02(state *C02State) func(*Sim, *Step) *Violation {
 	return func(s *Sim, st *Step) *Violation {
+		if st.Kind == "batch" && st.OK {
+			// every receive bundled into an accepted transaction was processed
+			for _, p := range st.Batch {
+				k := ChanSeq{st.Chain, p.SourceChain, p.DestinationChain, p.Sequence}
+				state.Accepted[k]++
+				if state.Accepted[k] > 1 {
+					return &Violation{"C02", "delivered-twice", fmt.Sprintf("packet %v accepted %d times on %s (bundled receives): %s", k, state.Accepted[k], st.Chain, st.Describe())}
+				}
+			}
+			return nil
+		}
 		if st.Kind != "recv" || st.Packet == nil {
 			return nil
 		}
